@@ -56,7 +56,7 @@ def sh(cmd, cwd=None, timeout=3600, env=None, check=False):
     return p.returncode, p.stdout
 
 
-def _run_shard(binary, lines, timeout, env=None):
+def _run_once(binary, lines, timeout, env=None):
     data = "\n".join(lines) + "\n"
     e = dict(os.environ)
     if env:
@@ -65,15 +65,46 @@ def _run_shard(binary, lines, timeout, env=None):
         p = subprocess.run([binary], input=data.encode(), stdout=subprocess.PIPE,
                            stderr=subprocess.PIPE, timeout=timeout, env=e)
     except subprocess.TimeoutExpired:
-        return ["!timeout"] * len(lines)
+        return None, None
     out = p.stdout.decode("utf-8", "replace").split("\n")
     if out and out[-1] == "":
         out.pop()
-    if len(out) != len(lines):
-        # the process died (abort / stack overflow): mark the case it died on
-        tail = ["!died rc=%d" % p.returncode] * (len(lines) - len(out))
-        out = out + tail
-    return out
+    return out, p.returncode
+
+
+CASE_TIMEOUT = 30
+
+
+def _run_shard(binary, lines, timeout, env=None):
+    """One process per shard.  When the process dies (abort / stack overflow) the case it died on is
+    marked `!died` and the rest of the shard is run again; when the shard runs out of time every
+    case of it is run again on its own under CASE_TIMEOUT, so that one non-terminating case is
+    reported as `!timeout` for that case and does not hide the others."""
+    res = []
+    rest = list(lines)
+    while rest:
+        out, rc = _run_once(binary, rest, timeout, env)
+        if out is None:
+            if len(rest) == 1:
+                res.append("!timeout")
+                break
+            with ThreadPoolExecutor(max_workers=NPROC) as ex:
+                singles = list(ex.map(lambda c: _run_once(binary, [c], CASE_TIMEOUT, env), rest))
+            for o, r in singles:
+                if o is None:
+                    res.append("!timeout")
+                elif len(o) != 1:
+                    res.append("!died rc=%s" % r)
+                else:
+                    res.append(o[0])
+            break
+        if len(out) >= len(rest):
+            res.extend(out[:len(rest)])
+            break
+        res.extend(out)
+        res.append("!died rc=%d" % rc)
+        rest = rest[len(out) + 1:]
+    return res
 
 
 def run_cases(binary, cases, shards=NPROC, timeout=600, env=None):
